@@ -30,7 +30,7 @@ PROP = {
                   "the kinds the server answers by itself (canary, health check, AAAA when switched off). The part "
                   "home_tls saves TLS settings through POST /control/tls/configure and requires the file-only option "
                   "strict_sni_check to survive in the running configuration, in what the DNS server is given and "
-                  "in the file written back.",
+                  "in the file written back. The reference model applies the strict clause to every request: a DoH request with an identifier in its path and a server name outside the configured one must fail under strict checking like any other (names that differ in letter case only, or lie more than one label under the configured name, are classed as unclear).",
     "level_note": "Server names whose domain part differs only in letter case from the configured name, and the "
                   "empty-label form '.<server name>', are tagged ambiguous (the statement does not decide them); "
                   "malformed Host headers are not generated.",
